@@ -27,7 +27,7 @@ ASSUMPTIONS = [
 ]
 GATES = ["ctor_calls", "parse_calls", "stream_runs", "exc:RTCMMessageError", "exc:RTCMParseError",
          "exc:RTCMStreamError", "exc:RTCMTypeError", "iter_mode0", "iter_mode1", "read_mode2", "prefix_enumerations",
-         "long_error_runs"]
+         "long_error_runs", "line_budget_runs"]
 
 
 def _ctor(ctx, payload, labelmsm=1, tag="ctor"):
@@ -139,6 +139,15 @@ def _stream(ctx, data, plan, mode, validate, pseed, backend, bparam):
         sock = doubles.ScriptedSocket(data, bparam.get("sizes", ()), budget=budget)
         stream = sock
     ctx.hit("stream_runs")
+    # socket runs with transfer decoding also get a budget of executed library LINES (sys.monitoring): a loop that
+    # spins without ever calling recv() is still a logical-step overrun, not a wall-clock matter
+    from vf import REPO_SRC
+
+    lb = monitors.LineBudget(REPO_SRC, 400000 + 400 * len(data), doubles.BudgetExceeded) if (
+        backend == "socket" and bparam.get("encoding", 0)) else None
+    if lb is not None:
+        lb.__enter__()
+        ctx.hit("line_budget_runs")
     try:
         try:
             rdr = RTCMReader(stream, validate=validate, quitonerror=mode, errorhandler=(lambda e: None),
@@ -202,6 +211,8 @@ def _stream(ctx, data, plan, mode, validate, pseed, backend, bparam):
                     if done or idle > len(plan) + len(bparam.get("sizes", ())) + 4:
                         break
     finally:
+        if lb is not None:
+            lb.__exit__()
         if sock is not None:
             sock.close()
         if feeder is not None:
@@ -369,7 +380,7 @@ def run(ctx):
             enc_opt = rng.choice((0, 0, 1, 1, 3, 5, 9))
             if enc_opt and rng.random() < 0.6:
                 # half-plausible chunked garbage
-                data = b"".join(rng.choice((b"%x\r\n" % rng.randint(0, 40), b"\r\n", b"0\r\n\r\n", b"zz\r\n",
+                data = b"".join(rng.choice((b"%x\r\n" % rng.randint(0, 40), b"\r\n", b"0\r\n\r\n", b"0\r\n", b"0\r\nX: y\r\n", b"zz\r\n",
                                             b"-5\r\n", b"ffffffff\r\n", b"f" * rng.randint(15, 40) + b"\r\n",
                                             b"7fffffffffffffff\r\n", b"8000000000000000\r\n", b"1" + b"0" * 30 + b"\r\n",
                                             b"0x10\r\n", b" 5 \r\n", b"5;ext=1\r\n", b"+3\r\n", b"1_0\r\n",
